@@ -562,3 +562,147 @@ M('C08-n-rename-pos', 'C08', F_PARSER,
   "        pos = self._pos\n        if self._accept(lexer.TokKeyword(b'break')) is not None:\n"
   "            endp = self._pos\n"
   "            return StatBreak(start=pos, end=self._pos)\n", kind='neutral')
+
+# ---------------------------------------------------------------- C09 ----
+M('C09-revert-fix13-eow', 'C09', F_LUA,
+  "        if (not self._args.get('ignore_tokens') and\n"
+  "                self._pos != len(self._tokens)):\n"
+  "            # The parser stopped before the end of the code. Writing only the\n"
+  "            # parsed part would silently drop the rest.\n"
+  "            raise parser.ParserError(\n"
+  "                'Unexpected token', token=self._tokens[self._pos])\n",
+  "", expect='R-C09-eow')
+M('C09-eow-only-debug', 'C09', F_LUA,
+  "        if (not self._args.get('ignore_tokens') and\n"
+  "                self._pos != len(self._tokens)):\n",
+  "        if (not self._args.get('ignore_tokens') and\n"
+  "                self._args.get('strict') and\n"
+  "                self._pos != len(self._tokens)):\n", expect='R-C09-eow')
+M('C09-formatter-overrides-name', 'C09', F_LUA,
+  "class LuaFormatterWriter(LuaASTEchoWriter):\n"
+  "    \"\"\"Writes the Lua code to use good spacing style.\n    \"\"\"\n"
+  "    DEFAULT_INDENT_WIDTH = 2\n",
+  "class LuaFormatterWriter(LuaASTEchoWriter):\n"
+  "    \"\"\"Writes the Lua code to use good spacing style.\n    \"\"\"\n"
+  "    DEFAULT_INDENT_WIDTH = 2\n\n"
+  "    def _get_name(self, node, tok):\n"
+  "        return super()._get_name(node, tok).lower()\n", expect='R-C09-hooks')
+M('C09-regex-eats-nonspace', 'C09', F_LUA,
+  "        spaces = re.sub(br' +\\n', b'\\n', spaces)\n\n        # If a comment is on the same line",
+  "        spaces = re.sub(br'.\\n', b'\\n', spaces)\n\n        # If a comment is on the same line",
+  expect='R-C09-wsregex')
+M('C09-regex-drops-newline', 'C09', F_LUA,
+  "        spaces = re.sub(br'\\n\\n+', b'\\n\\n', spaces)\n\n        # Remove excess",
+  "        spaces = re.sub(br'\\n\\n+', b' ', spaces)\n\n        # Remove excess",
+  expect='R-C09-wsregex')
+M('C09-comment-intro-rewritten', 'C09', F_LUA,
+  "            spaces = re.sub(br'^ *(--|//)', br'  \\1', spaces)\n",
+  "            spaces = re.sub(br'^ *(--|//)', b'  --', spaces)\n",
+  expect='R-C09-wsregex')
+M('C09-delete-handler', 'C09', F_LUA,
+  "    def _walk_StatRepeat(self, node):\n"
+  "        yield self._get_text(node, b'repeat')\n"
+  "        self._indent += 1\n"
+  "        for t in self._walk(node.block):\n"
+  "            yield t\n"
+  "        self._indent -= 1\n"
+  "        yield self._get_text(node, b'until')\n"
+  "        for t in self._walk(node.exp):\n"
+  "            yield t\n\n", "", expect='R-C09-schema')
+M('C09-handler-forgets-field', 'C09', F_LUA,
+  "        if node.exp_step is not None:\n"
+  "            yield self._get_text(node, b',')\n"
+  "            for t in self._walk(node.exp_step):\n"
+  "                yield t\n", "", expect='R-C09-schema')
+M('C09-revert-fix14-do', 'C09', F_LUA,
+  "                    spaces = self._get_code_for_spaces(node)\n"
+  "                    if self._tokens[self._pos].matches(\n"
+  "                            lexer.TokKeyword(b'do')):\n"
+  "                        # The parser accepts \"if (cond) do ... end\".\n"
+  "                        yield spaces + self._get_text(node, b'do')\n"
+  "                    else:\n"
+  "                        yield spaces + self._get_text(node, b'then')\n",
+  "                    yield self._get_text(node, b'then')\n",
+  expect='R-C09-agree')
+M('C09-writer-wrong-keyword', 'C09', F_LUA,
+  "        yield self._get_text(node, b'until')\n",
+  "        yield self._get_text(node, b'end')\n", expect='R-C09-agree')
+M('C09-luafmt-drops-indentwidth', 'C09', F_TOOL,
+  "        lua_writer_args={'indentwidth': args.indentwidth})\n",
+  "        lua_writer_args={'indent_width': args.indentwidth})\n",
+  expect='R-C01-wiring')
+
+# ---------------------------------------------------------------- C10 ----
+M('C10-missing-dedent', 'C10', F_LUA,
+  "        yield self._get_text(node, b'do')\n"
+  "        self._indent += 1\n"
+  "        for t in self._walk(node.block):\n"
+  "            yield t\n"
+  "        self._indent -= 1\n"
+  "        yield self._get_text(node, b'end')\n\n"
+  "    def _walk_StatRepeat(self, node):",
+  "        yield self._get_text(node, b'do')\n"
+  "        self._indent += 1\n"
+  "        for t in self._walk(node.block):\n"
+  "            yield t\n"
+  "        yield self._get_text(node, b'end')\n\n"
+  "    def _walk_StatRepeat(self, node):", expect='R-C10-balance')
+M('C10-dedent-after-closer', 'C10', F_LUA,
+  "    def _walk_StatDo(self, node):\n"
+  "        yield self._get_text(node, b'do')\n"
+  "        self._indent += 1\n"
+  "        for t in self._walk(node.block):\n"
+  "            yield t\n"
+  "        self._indent -= 1\n"
+  "        yield self._get_text(node, b'end')\n",
+  "    def _walk_StatDo(self, node):\n"
+  "        yield self._get_text(node, b'do')\n"
+  "        self._indent += 1\n"
+  "        for t in self._walk(node.block):\n"
+  "            yield t\n"
+  "        yield self._get_text(node, b'end')\n"
+  "        self._indent -= 1\n", expect='R-C10-bracket')
+M('C10-shortif-unbalanced', 'C10', F_LUA,
+  "                if not short_if:\n                    self._indent -= 1\n",
+  "                self._indent -= 1\n", expect='R-C10-balance')
+M('C10-revert-fix15-introducers', 'C10', F_LUA,
+  "            br'\\n *(--|//)',\n"
+  "            b'\\n' + b' ' * self._indent_mult * self._indent + br'\\1',\n",
+  "            br'\\n *--',\n"
+  "            b'\\n' + b' ' * self._indent_mult * self._indent + b'--',\n",
+  expect='R-C10-introducers')
+M('C10-no-collapse', 'C10', F_LUA,
+  "        spaces = re.sub(br'\\n\\n+', b'\\n\\n', spaces)\n", "",
+  expect='R-C10-order')
+M('C10-cr-after-trailing', 'C10', F_LUA,
+  "        spaces = re.sub(br'\\r', b'\\n', spaces)\n\n"
+  "        # Delete trailing whitespace.\n"
+  "        spaces = re.sub(br' +\\n', b'\\n', spaces)\n",
+  "        # Delete trailing whitespace.\n"
+  "        spaces = re.sub(br' +\\n', b'\\n', spaces)\n"
+  "        spaces = re.sub(br'\\r', b'\\n', spaces)\n", expect='R-C10-order')
+M('C10-indent-in-wrong-place', 'C10', F_LUA,
+  "        yield self._get_text(node, b'while')\n"
+  "        for t in self._walk(node.exp):\n"
+  "            yield t\n"
+  "        yield self._get_text(node, b'do')\n"
+  "        self._indent += 1\n",
+  "        yield self._get_text(node, b'while')\n"
+  "        self._indent += 1\n"
+  "        for t in self._walk(node.exp):\n"
+  "            yield t\n"
+  "        yield self._get_text(node, b'do')\n", expect='R-C10-bracket')
+M('C10-default-width-mismatch', 'C10', F_TOOL,
+  "        '--indentwidth', type=int, action='store', default=2,",
+  "        '--indentwidth', type=int, action='store', default=4,",
+  expect='R-C10-indentwidth')
+M('C10-n-yield-from-block', 'C10', F_LUA,
+  "    def _walk_StatDo(self, node):\n"
+  "        yield self._get_text(node, b'do')\n"
+  "        self._indent += 1\n"
+  "        for t in self._walk(node.block):\n"
+  "            yield t\n",
+  "    def _walk_StatDo(self, node):\n"
+  "        yield self._get_text(node, b'do')\n"
+  "        self._indent += 1\n"
+  "        yield from self._walk(node.block)\n", kind='neutral')
